@@ -73,6 +73,30 @@ CHECKS["C20"] = dict(
     design_ref="5 C20, 7", technique="Coq proof (equivalence-relation laws via digest equality) + extracted-model differential correspondence with feature timing-resistant-secret-traits",
     note="SHA-256 collision-freeness on the compared pair is a visible premise of C20_sound_partial.")
 
+CHECKS["C05"] = dict(
+    text="Theorems for ANY success/error decoders, every status, Content-Type and body: a total, disjoint 7-row decision table; a success value iff 200 + absent-or-JSON Content-Type + non-empty body the success decoder accepts; "
+         "typed server error iff non-200 + non-empty body the error decoder accepts; parse error carrying exactly the original body otherwise; other-error iff empty body or non-JSON Content-Type on 200; "
+         "one HTTP client call per request (none if unbuildable), transport error returned unchanged. Correspondence: all 500 statuses x Content-Type classes x 14 body classes x 7 request kinds x standard/extension types through the real request()/request_async() against the extracted Endpoint+Json+Serde model.",
+    design_ref="5 C05", technique="Coq proof (total decision table by case analysis, parametric in the decoders) + extracted-model differential correspondence over all status codes",
+    note="serde_json's reader and serde derive are Gallina models (lib/Json.v, model/Serde.v) validated differentially; the table theorems do not depend on them.")
+CHECKS["C11"] = dict(
+    text="Theorems for every sequence of the 19 configuration operations of any length: refinement to 'each item holds its most recent value' (so no setter disturbs another item), the invariant typestate Set => URL present in every reachable state, "
+         "hence no getter/operation can panic; each operation targets the URL stored for its own endpoint with the current credentials; conditionally-absent => MissingUrl naming the endpoint, conditionally-present = unconditional; never-set => method absent. "
+         "Correspondence: exhaustive op sequences up to length 2 (3 thorough), all 243 typestate combinations, random longer ones through a generic typestate driver, observing every getter and every permitted operation's captured request; 29 rustc probes for the gated methods.",
+    design_ref="5 C11", technique="Coq proof (refinement + invariant by induction over operation sequences) + extracted-model differential correspondence + rustc compile probes",
+    note="'rejected at compile time' is decided by rustc (E0599 naming the method) on probe programs; the model's table says what that means.")
+CHECKS["C13"] = dict(
+    text="Theorems: a revocation request value exists only when the endpoint is present with scheme https (else InsecureUrl / MissingUrl 'revocation', no request, no network); it carries token and token_type_hint exactly when the token provides one; "
+         "the outcome is success iff status = 200 for every body and Content-Type, otherwise the typed error / parse error / empty-body error. Correspondence: 14 schemes/URL shapes x token kinds x auth through the real revoke_token, and all statuses x bodies.",
+    design_ref="5 C13", technique="Coq proof (gate and status table by case analysis) + extracted-model differential correspondence over schemes and all status codes",
+    note="Url::scheme() is an oracle reported by the harness.")
+CHECKS["C18"] = dict(
+    text="Theorems for ANY URL parser: construction succeeds iff the string parses; display/deref/serialise return the original text; the parsed form is the parse of that text; ==, cmp, hash are those of the text "
+         "(cmp = Eq iff ==, == implies equal hashes, cmp is a total order: reflexive, antisymmetric, transitive); deserialise(serialise v) is equal with the same parsed form; invalid strings fail deserialisation; from_url keeps canonical text. "
+         "Correspondence: 7 types x curated valid/invalid strings and all pairs, the url crate as independent oracle.",
+    design_ref="5 C18", technique="Coq proof (order laws of byte-lexicographic comparison, parametric in the URL parser) + extracted-model differential correspondence",
+    note="Url::parse/to_string are the oracle for validity and canonical form.")
+
 NOT_YET = {}
 
 
